@@ -21,6 +21,15 @@ from .c18 import gen_any
 
 SCRIPT = b"return redis.call(unpack(ARGV))"
 SHA = hashlib.sha1(SCRIPT).hexdigest().encode()
+# scripts are not rolled back: what they wrote before failing took effect and belongs in the log
+FAILING_SCRIPTS = [
+    (b"redis.call(unpack(ARGV)) error('failing after the write')", "error-after-write"),
+    (b"redis.call(unpack(ARGV)) return {err = 'error table after the write'}", "err-table-after-write"),
+    (b"redis.call(unpack(ARGV)) return redis.call('INCR', 'c11:alist')", "wrongtype-after-write"),
+    (b"redis.call(unpack(ARGV)) redis.call('NOSUCHCOMMAND') return 1", "unknown-command-after-write"),
+    (b"redis.call('RPUSH', 'c11:alist', 'x') redis.call(unpack(ARGV)) redis.pcall('INCR', 'c11:alist') return redis.error_reply and 1 or {err = 'e'}", "writes-around-pcall-error"),
+    (b"redis.call(unpack(ARGV)) return redis.pcall('INCR', 'c11:alist')", "returns-pcall-error"),
+]
 WRITE_NAMES = ["SET", "SETNX", "SETEX", "PSETEX", "GETSET", "APPEND", "SETRANGE", "INCR", "DECR", "INCRBY", "DECRBY", "MSET",
                "DEL", "EXPIRE", "PEXPIRE", "PERSIST", "RENAME", "RENAMENX", "FLUSHDB", "LPUSH", "RPUSH", "LPOP", "RPOP", "LSET",
                "LTRIM", "LREM", "SADD", "SREM", "SPOP", "HSET", "HMSET", "HDEL", "HINCRBY", "ZADD", "ZREM", "ZINCRBY",
@@ -244,7 +253,19 @@ def history(env, rng, res, hn):
                     m.apply(db, a)
                 except Exception:
                     pass
-                if rng.random() < 0.5:
+                if rng.random() < 0.3:
+                    fs, tag = rng.choice(FAILING_SCRIPTS)
+                    c.cmd("RPUSH", "c11:alist", "seed")
+                    if rng.random() < 0.7:
+                        c.cmd(b"EVAL", fs, b"0", *a)
+                    else:
+                        c.cmd("MULTI")
+                        c.cmd(b"EVAL", fs, b"0", *a)
+                        c.cmd("EXEC")
+                    hist.append(b"[eval, fails after writing: " + tag.encode() + b"] " + b" ".join(a)[:90])
+                    res.cell("eval-failing", tag)
+                    paths_used.add("eval-failing")
+                elif rng.random() < 0.5:
                     c.cmd(b"EVAL", SCRIPT, b"0", *a)
                     hist.append(b"[eval] " + b" ".join(a)[:110])
                     res.cell("eval", a[0].upper().decode("latin1"))
@@ -274,7 +295,11 @@ def history(env, rng, res, hn):
                     other.send(op, key, b"0")
                     server.wait_loops(c, 4)
                     c.cmd("RPUSH", key, b"served-%d" % step, b"stays-%d" % step)
-                    got = other.recv(timeout=10)
+                    try:
+                        got = other.recv(timeout=10)
+                    except Timeout:
+                        raise RuntimeError("waiter not served within 10 s: db=%r key=%r op=%r LRANGE=%r BLOCKED=%r" % (
+                            db, key, op, c.cmd("LRANGE", key, 0, -1), c.cmd("VERIF", "BLOCKED")))
                     hist.append(b"[blocked %s %s] RPUSH %s a b -> served" % (op, key, key))
                     res.cell("blocking-served", op.decode())
                     paths_used.add("blocking-served")
@@ -283,6 +308,7 @@ def history(env, rng, res, hn):
             if (step + 1) % 50 == 0:
                 if not quiescent_check(env, res, c, paths_used, hist):
                     return
+                c.cmd("SELECT", db)      # the dump walks all databases and ends in 0
         quiescent_check(env, res, c, paths_used, hist)
         if hn <= 2:
             res.sample([h.decode("latin1")[:80] for h in hist[-8:]])
@@ -306,7 +332,9 @@ def worker(wseed, binary, budget_s):
                 if not env.live.alive():
                     res.violation("server-died", "AOF-enabled server exited %s\n%s" % (env.live.exit_status(), env.live.stderr_tail(1200)))
                 else:
-                    res.inconclusive.append("history %d: %r" % (n, e))
+                    import traceback
+                    res.inconclusive.append("history %d: %r at %s" % (n, e, " <- ".join(
+                        "%s:%d" % (f.name, f.lineno) for f in traceback.extract_tb(e.__traceback__)[-3:])))
                 env.close()
                 env = Env(binary)
         res.count("histories", n)
